@@ -107,6 +107,20 @@ def correspond(ctx):
             mismatches.append({"key": "config-dependent", "what": "count kind %d of [%d, %d] with sieve size %d KiB, %d threads, build %s: %s, expected %s" % (k, w[0], w[1], kb, th, v, o.strip(), want),
                                "failing_input": {"kind": k, "start": w[0], "stop": w[1], "sieve_size": kb, "threads": th, "variant": v, "observed": o.strip(), "expected": want}})
     dist["config_runs"] = len(jobs)
+    # 2a. the largest sieve array: with 8192 KiB and a stop above 4.4e14 a single-threaded run over more than 1.26e8 numbers uses
+    # a sieve array above 4 MiB (the only configuration in which SievingPrime's 23-bit multipleIndex uses its top bit, and in
+    # which EratBig runs with 2^23-byte segments); its counts must be those of a small sieve size
+    for (a_, b_, kb_, why_) in countlib.big_sieve_cases(rng, 1 if not ctx.thorough else 3):
+        outs = {}
+        for kb2 in (kb_, 256):
+            rc, o, e = ps.run([probe["default"]], input="COUNT 1 %d %d 1 %d\nCOUNT 2 %d %d 1 %d\n" % (a_, b_, kb2, a_, b_, kb2), timeout=600)
+            outs[kb2] = (rc, [l.split()[1] if len(l.split()) > 1 else "?" for l in o.splitlines()])
+        ev += 1
+        sigs.add(("cfg-big-sieve", kb_))
+        if outs[kb_][0] != 0 or outs[256][0] != 0 or outs[kb_][1] != outs[256][1]:
+            mismatches.append({"key": "config-dependent", "what": "count_primes / count_twins of [%d, %d], single-threaded: %s with sieve size %d KiB but %s with 256 KiB" % (a_, b_, outs[kb_][1], kb_, outs[256][1]),
+                               "failing_input": {"start": a_, "stop": b_, "threads": 1, "sieve_sizes": [kb_, 256], "observed": outs[kb_][1], "with_256": outs[256][1]}})
+    dist["big_sieve_runs"] = 1 if not ctx.thorough else 3
     # 2b. printed output: the command line prints the same lines for every thread count, sieve size and dispatch build, on
     # intervals long enough (>= 2e7) to be split among threads (the reference is the single-threaded default-size run of
     # the default build; C15 compares that run with the specification)
